@@ -421,6 +421,17 @@ def _sliced_by(fnode, e, lo, hi, depth=0):
                 x.upper is not None and norm(x.lower) == lo and \
                 norm(x.upper) == hi:
             return True
+        if isinstance(x, ast.Subscript) and \
+                not isinstance(x.slice, (ast.Tuple, ast.Slice)):
+            # an index tuple assembled from parts
+            from ..core import index_alternatives
+            al_ = index_alternatives(fnode, x)
+            if al_ and all(any(isinstance(el, ast.Slice) and
+                               el.lower is not None and el.upper is not None
+                               and norm(el.lower) == lo and
+                               norm(el.upper) == hi for el in alt)
+                           for alt in al_):
+                return True
         if isinstance(x, ast.Subscript):
             # a named slice object  rows = slice(lo, hi)
             for el in (x.slice.elts if isinstance(x.slice, ast.Tuple)
@@ -456,31 +467,40 @@ def r5_planes(ctx, prog, rule="C20-R5"):
                 isinstance(s_.targets[0], ast.Name) and
                 isinstance(s_.value, ast.Attribute) and
                 s_.value.attr == "section"}
-        for x in walk_no_nested(fi.node):
-            if not (isinstance(x, ast.Subscript) and
-                    isinstance(x.slice, ast.Tuple) and (
-                        isinstance(x.value, ast.Attribute) and
-                        x.value.attr == "section" or
-                        isinstance(x.value, ast.Name) and
-                        x.value.id in sect)):
+        from ..core import index_alternatives
+        for x0 in walk_no_nested(fi.node):
+            if not (isinstance(x0, ast.Subscript) and (
+                        isinstance(x0.value, ast.Attribute) and
+                        x0.value.attr == "section" or
+                        isinstance(x0.value, ast.Name) and
+                        x0.value.id in sect)):
                 continue
-            els = x.slice.elts
-            lead = els[:-2]
-            if len(els) == 2:
-                continue
-            n += 1
-            txt = [norm(e) for e in lead]
-            cube = [p_ for p_ in fi.params if "cube" in p_]
-            # the enclosing function of a nested worker may own the name
-            cname = cube[0] if cube else "cube_index"
-            want = [cname] if len(lead) == 1 else ["0", cname] \
-                if len(lead) == 2 else None
-            ctx.check(rule, fi, "plane indices %s of %s" %
-                      (txt, norm(x, 60)), want is not None and txt == want,
-                      "a %d-d image must be read as %s; found %s: the rows of "
-                      "a different plane are returned (or an IndexError for "
-                      "a degenerate leading axis)" %
-                      (len(els), want, txt), node=x)
+            alts_ = index_alternatives(fi.node, x0)
+            if alts_ is None:
+                if isinstance(x0.slice, (ast.Slice, ast.Constant)):
+                    continue          # a 1-d read
+                raise AnalysisError("%s: index of %s in %s cannot be "
+                                    "resolved" % (rule, norm(x0, 60),
+                                                  fi.short))
+            for els in alts_:
+              x = x0
+              lead = els[:-2]
+              if len(els) <= 2:
+                  continue
+              n += 1
+              if True:
+                txt = [norm(e) for e in lead]
+                cube = [p_ for p_ in fi.params if "cube" in p_]
+                # the enclosing function of a nested worker may own the name
+                cname = cube[0] if cube else "cube_index"
+                want = [cname] if len(lead) == 1 else ["0", cname] \
+                    if len(lead) == 2 else None
+                ctx.check(rule, fi, "plane indices %s of %s" %
+                          (txt, norm(x, 60)), want is not None and txt == want,
+                          "a %d-d image must be read as %s; found %s: the rows of "
+                          "a different plane are returned (or an IndexError for "
+                          "a degenerate leading axis)" %
+                          (len(els), want, txt), node=x)
     ctx.floor(rule, n, 4, "3-d / 4-d section reads in the package")
 
 
@@ -513,8 +533,13 @@ def r6_bscale(ctx, prog, fi=None, rule="C20-R6"):
 
         def updates(node):
             out = []
+            from ..core import expand_locals
             for st in walk_no_nested(node):
                 u = as_update(st)
+                if u is not None and "BSCALE" not in u[2] and \
+                        isinstance(st, ast.AugAssign):
+                    # data *= bscale  with  bscale = header['BSCALE']
+                    u = (u[0], u[1], norm(expand_locals(node, st.value)))
                 if u is not None and "BSCALE" in u[2]:
                     out.append((st, u))
             return out
